@@ -290,12 +290,22 @@ static void norm23_case(vf_rng *r)
     }
 }
 
+/* lengths: mostly 0..33; one time in eight a length around a power of two above 1000 or a large odd one (blocked or pairwise
+   loops with a remainder: seeded change C11-E drops the last element of odd halves from n = 1025 on) */
+static size_t draw_n(vf_rng *r)
+{
+    static size_t const big[] = {1023, 1024, 1025, 2047, 2048, 2049, 2050, 3001, 4095, 4096, 4097, 8191, 10001, 16385};
+    if (!vf_chance(r, 1, 8)) { return (size_t)vf_below(r, 34); }
+    if (vf_chance(r, 1, 3)) { return 1024 + (size_t)vf_below(r, 19000); }
+    VF_COUNT("large-array-lengths");
+    return big[vf_below(r, sizeof big / sizeof big[0])];
+}
 static void normn_case(vf_rng *r)
 {
     char d[96];
     for (int i = 0; i < NPTS / 4; ++i)
     {
-        size_t n = (size_t)vf_below(r, 34), c = 1 + (size_t)vf_below(r, 4);
+        size_t n = draw_n(r), c = 1 + (size_t)vf_below(r, 4);
         int regime = (int)vf_below(r, 4) == 3 ? 4 : (int)vf_below(r, 3);
         a_real *p = (a_real *)malloc((n * c ? n * c : 1) * sizeof(a_real)); /* exact size: a stride error is an ASan report */
         a_real *q = (a_real *)malloc((n ? n : 1) * sizeof(a_real));
@@ -324,6 +334,56 @@ static void normn_case(vf_rng *r)
     }
 }
 
+/* the origin and the z axis: the angles are not determined mathematically, but every C convention gives FINITE angles there
+   (atan2(+-0, +0) = +-0), so the conversion must return rho == |z| (0 at the origin) exactly, finite angles, alpha = +-pi/2 on
+   the z axis, and the way back must reproduce the point (seeded change C11-F: atan(z / r) in place of atan2(z, r) gives
+   alpha = NaN at the origin only). */
+static void axis_points_case(vf_rng *r)
+{
+    a_real const zs[] = {(a_real)0.0, 1, -1, (a_real)3.5, -A_REAL_MIN * 4, A_REAL_MAX / 8, (a_real)-0.0};
+    char d[96];
+    for (unsigned k = 0; k < sizeof zs / sizeof zs[0]; ++k)
+    {
+        a_real const z = zs[k], x0 = vf_chance(r, 1, 2) ? (a_real)0.0 : (a_real)-0.0, y0 = vf_chance(r, 1, 2) ? (a_real)0.0 : (a_real)-0.0;
+        a_real rho = 7, th = 7, alp = 7, bx = 7, by = 7, bz = 7;
+        snprintf(d, sizeof d, "x=%a y=%a z=%a", (double)x0, (double)y0, (double)z);
+        vf_log("cart2sph on the z axis / at the origin %s", d);
+        a_real_cart2sph(x0, y0, z, &rho, &th, &alp);
+        ++vf.evals;
+        VF_COUNT("judged/cart2sph-origin-and-z-axis");
+        if (!(rho == (z < 0 ? -z : z)) || !(th == th) || !(alp == alp) || !(th >= -4 && th <= 4) || !(alp >= -2 && alp <= 2))
+        {
+            vf_viol("real/cart2sph/origin-or-z-axis", "%s: cart2sph gives rho=%a theta=%a alpha=%a (rho must be |z| exactly, both angles finite) [config %s]", d, (double)rho, (double)th, (double)alp, vf.config);
+            continue;
+        }
+        if (z != 0 && fabsq(fabsq((q_t)alp) - M_PI_2q) > 4 * EPSQ * M_PI_2q)
+        {
+            vf_viol("real/cart2sph/origin-or-z-axis", "%s: alpha=%a, expected +-pi/2 on the z axis [config %s]", d, (double)alp, vf.config);
+            continue;
+        }
+        a_real_sph2cart(rho, th, alp, &bx, &by, &bz);
+        {
+            q_t const az = fabsq((q_t)z), e = fabsq((q_t)bx) + fabsq((q_t)by) + fabsq((q_t)bz - (q_t)z);
+            if (!(e <= 8 * EPSQ * az)) /* at the origin: exactly (0,0,0) */
+            {
+                vf_viol("real/sphere/round-trip-origin-or-z-axis", "%s -> (rho %a, theta %a, alpha %a) -> (%a, %a, %a) [config %s]", d, (double)rho, (double)th, (double)alp, (double)bx, (double)by, (double)bz, vf.config);
+            }
+        }
+        if (z == 0)
+        {
+            a_real pr = 7, pt = 7, px = 7, py = 7;
+            a_real_cart2pol(x0, y0, &pr, &pt);
+            a_real_pol2cart(pr, pt, &px, &py);
+            ++vf.evals;
+            VF_COUNT("judged/cart2pol-origin");
+            if (!(pr == 0) || !(pt == pt) || !(pt >= -4 && pt <= 4) || !(px == 0) || !(py == 0))
+            {
+                vf_viol("real/cart2pol/origin", "%s: cart2pol gives rho=%a theta=%a, back (%a, %a) [config %s]", d, (double)pr, (double)pt, (double)px, (double)py, vf.config);
+            }
+        }
+    }
+}
+
 static void polar_case(vf_rng *r)
 {
     char d[128];
@@ -334,7 +394,7 @@ static void polar_case(vf_rng *r)
         q_t rr, tt, h = 0x1p-30Q, kt;
         if (vf_chance(r, 1, 10)) { x = 0; }
         if (vf_chance(r, 1, 10)) { y = 0; }
-        if ((x == 0 && y == 0) || (y == 0 && x < 0)) { continue; }
+        if (x == 0 && y == 0) { continue; } /* origin / z axis: axis_points_case */
         snprintf(d, sizeof(d), "x=%a y=%a", (double)x, (double)y);
         if (i < 2) { vf_log("cart2pol %s", d); }
         a_real_cart2pol(x, y, &rho, &th);
@@ -366,6 +426,7 @@ static void polar_case(vf_rng *r)
 static void sphere_case(vf_rng *r)
 {
     char d[160];
+    axis_points_case(r);
     for (int i = 0; i < NPTS; ++i)
     {
         double mag = logu(r, vf_chance(r, 1, 2) ? -3 : TINY / 2, vf_chance(r, 1, 2) ? 3 : HUGE_ / 2), ph = vf_uniform(r, -3.1, 3.1), al = vf_uniform(r, -1.55, 1.55);
@@ -373,7 +434,7 @@ static void sphere_case(vf_rng *r)
         q_t rr, r2, tt, aa, h = 0x1p-30Q, kt, ka;
         if (vf_chance(r, 1, 10)) { z = 0; }
         if (vf_chance(r, 1, 12)) { y = 0; }
-        if ((x == 0 && y == 0) || (y == 0 && x < 0)) { continue; }
+        if (x == 0 && y == 0) { continue; } /* origin / z axis: axis_points_case */
         snprintf(d, sizeof(d), "x=%a y=%a z=%a", (double)x, (double)y, (double)z);
         if (i < 2) { vf_log("cart2sph %s", d); }
         a_real_cart2sph(x, y, z, &rho, &th, &alp);
@@ -443,7 +504,7 @@ static void reduce_case(vf_rng *r)
     char d[96];
     for (int i = 0; i < NPTS / 2; ++i)
     {
-        size_t n = (size_t)vf_below(r, 34), c = 1 + (size_t)vf_below(r, 4), c2 = 1 + (size_t)vf_below(r, 4);
+        size_t n = draw_n(r), c = 1 + (size_t)vf_below(r, 4), c2 = 1 + (size_t)vf_below(r, 4);
         a_real *p = (a_real *)malloc((n * c ? n * c : 1) * sizeof(a_real));
         a_real *y = (a_real *)malloc((n * c2 ? n * c2 : 1) * sizeof(a_real));
         a_real *pc = (a_real *)malloc((n ? n : 1) * sizeof(a_real)), *yc = (a_real *)malloc((n ? n : 1) * sizeof(a_real));
